@@ -57,6 +57,9 @@ pub enum TOp {
     Query(u8, Q),
     /// the same query text again with different spacing between tokens
     QueryRespaced(u8, Q),
+    /// only as the first operation: capacity of A's plan cache (guarded knob), so that the
+    /// per-run pool of query texts overflows it and plans are evicted and rebuilt
+    CacheCapacity(u8),
 }
 
 impl TOp {
@@ -72,6 +75,7 @@ impl TOp {
             TOp::DropIndex(_) => "drop_index",
             TOp::Query(..) => "query",
             TOp::QueryRespaced(..) => "query_respaced",
+            TOp::CacheCapacity(_) => "cache_capacity",
         }
     }
 }
@@ -195,7 +199,13 @@ pub struct ExecResult {
 }
 
 pub fn exec(ops: &[TOp]) -> ExecResult {
+    let cap = match ops.first() {
+        Some(TOp::CacheCapacity(n)) => Some(u64::from(*n).max(2)),
+        _ => None,
+    };
+    grafeo_common::verif::set_knob("query_cache.capacity", cap);
     let a = GrafeoDB::with_config(DbConfig::in_memory()).expect("in-memory db");
+    grafeo_common::verif::set_knob("query_cache.capacity", None);
     let b = GrafeoDB::with_config(DbConfig::in_memory().without_factorized_execution()).expect("in-memory db");
     let sa = [a.session(), a.session()];
     let sb = b.session();
@@ -320,6 +330,7 @@ pub fn exec(ops: &[TOp]) -> ExecResult {
                     }
                 }
             }
+            TOp::CacheCapacity(_) => {}
             TOp::CreateIndex(k) => {
                 a.create_property_index(KEYS[*k as usize % 3]);
                 indexed[*k as usize % 3] = true;
@@ -363,6 +374,9 @@ pub fn exec(ops: &[TOp]) -> ExecResult {
                     }
                 }
                 seen_texts.insert(norm, data_version);
+                if cap.is_some_and(|c| seen_texts.len() as u64 > c / 2) {
+                    *probes.entry("plan_cache_over_capacity_texts").or_insert(0) += 1;
+                }
                 let idx_any = indexed.iter().any(|x| *x);
                 let ctx = format!("cache={} | index={}", if warm.is_some() { "warm" } else { "cold" }, if idx_any { "some" } else { "none" });
                 if ra != rb {
@@ -425,6 +439,10 @@ pub fn generate(rng: &mut Prng, thorough: bool) -> Vec<TOp> {
     let (mut nn, mut ne) = (0usize, 0usize);
     let mut pairs: Vec<(usize, usize)> = Vec::new();
     let mut ops = Vec::new();
+    if rng.chance(1, 2) {
+        // QueryCache::new(n) gives each of its two levels n/2 entries
+        ops.push(TOp::CacheCapacity(*rng.pick(&[2u8, 4, 6])));
+    }
     while ops.len() < len {
         let op = match rng.below(24) {
             0..=3 => {
